@@ -20,10 +20,12 @@ UBDQ = chain("ubdqueue", 64, 640, ops=80, tops=160)
 UBDQ_ASSUME = "the unbonding queue (Props/C09q): DelayUnbonding, PayFromUnbondings and the end-blocker's completion are modelled in Model/UbdQueue.lean on the pair of stores (unbonding delegations, completion queue); creation height and initial balance of an entry, the maximum number of entries per pair and the coins of the not-bonded pool are left out; the engine 'ubdqueue' calls the real functions in a discarded cache context on populations built by the real Undelegate at chosen block times"
 MINT_ASSUME = "the size of the block provision (the SDK minter's inflation and annual provisions) is an input of the mint model; the monitor supply_grows_by_the_provision restates BlockProvision = annual provisions / blocks per year on the observation"
 
-VM_ENGINES = [vm("ops", 16000, 320000), vm("structured", 16000, 320000), vm("raw", 16000, 320000), vm("calls", 16000, 320000), vm("create", 1600, 16000)]
-VM_ASSUME = ["outside the Lean interpreter model (cases reaching them are skipped by the comparison, monitors still run): CREATE/CREATE2, native/precompile addresses (<= 0xff), any use of an address destroyed earlier in the same transaction, call nesting deeper than 8",
+VM_ENGINES = [vm("ops", 16000, 320000), vm("structured", 16000, 320000), vm("raw", 16000, 320000), vm("calls", 16000, 320000), vm("create", 4800, 48000)]
+VM_ASSUME = ["outside the Lean interpreter model (cases reaching them are skipped by the comparison, monitors still run): native/precompile addresses (<= 0xff), any use of an address destroyed earlier in the same transaction, call / constructor nesting deeper than 8",
+             "CREATE and CREATE2 are inside the model; the address CREATE derives (SHA-256 of creator, transaction nonce and the CVM's sequence counter; no SHA-256 in the Lean base) is an input of the model: the harness reconstructs the table (creator, sequence number) -> address from the interpreter's call events, the driver checks that it is a one-to-one function, and a model run that asks for an entry the interpreter did not derive is reported as a difference; the CREATE2 address (Keccak-256) is computed by the model",
+             "the VM engine's state gives every account the CreateContract permission (Burrow's default global permissions) and has no contract metadata (InitChildCode's code-hash whitelist is empty); the transaction nonce option of the CVM is empty",
              "DataStackMaxDepth = 0 and the 16 MiB memory provider, as x/cvm/keeper configures the VM"]
-VM_TRUST = ["modelled, not verified: Go runtime (big.Int, slices, allocation limits), Burrow acmstate cache/Sync, golang.org/x/crypto/sha3",
+VM_TRUST = ["modelled, not verified: Go runtime (big.Int, slices, allocation limits), Burrow acmstate cache/Sync, golang.org/x/crypto/sha3, crypto/sha256 (CREATE addresses: taken from the interpreter as an oracle)",
             "the VM engine runs /repo/vm on an in-memory Burrow state with the keeper's storage convention; the keeper, the message path and the SDK gas meter are covered by the chain engine"]
 
 SDK_TRUST = ["modelled, not verified: Cosmos SDK bank/auth/staking/distribution, baseapp transaction atomicity, IAVL, Tendermint"]
@@ -102,10 +104,10 @@ PROPS = {
     },
     "C01": dict(BANKVM, lean=["Shentu.Props.C01", "Shentu.Props.C01s", "Shentu.Props.C01vm", "Shentu.Props.C01run", "Shentu.Props.C01m"], drivers=["chaindriver", "vmdriver"],
                 engines=[chain("bankvm", 96, 960, ops=100), chain("gov", 48, 480, ops=100), chain("oracle", 48, 480), chain("shield", 32, 320, ops=120), chain("staking", 32, 320, ops=100),
-                         vm("calls", 16000, 160000), EXPORT, MINT],
+                         vm("calls", 16000, 160000), vm("create", 4800, 48000), EXPORT, MINT],
                 assumptions=BANKVM["assumptions"] + [MINT_ASSUME, "arbitrary contract programs (value calls, SELFDESTRUCT to any beneficiary, failing frames) are covered by the VM engine: the accounts of the interpreter's cache hold the same sum before and after every generated call tree; the write-back of that cache to the bank is covered by the chain engine's library programs"]),
     "C18": dict(BANKVM, lean=["Shentu.Props.C18", "Shentu.Props.C18vm"], drivers=["chaindriver", "vmdriver"],
-                engines=[chain("bankvm", 160, 1600, ops=100), vm("calls", 16000, 320000), vm("create", 1600, 16000), EXPORT]),
+                engines=[chain("bankvm", 160, 1600, ops=100), vm("calls", 16000, 320000), vm("create", 4800, 48000), EXPORT]),
     "C19": dict(BANKVM, lean=["Shentu.Props.C19", "Shentu.Props.C19H"], engines=[chain("bankvm", 160, 1600, ops=100), chain("payout", 48, 480, ops=120, tops=200), EXPORT],
                 assumptions=BANKVM["assumptions"] + ["the one path outside the bank and cvm modules that touches the lock — a shield claim paid out of the stake of an account with locked coins — is exercised by the engine 'payout' on providers turned into ManualVestingAccounts in a discarded cache context (an account with locked coins may delegate them and deposit collateral)"]),
     "C11": dict(GOV, lean=["Shentu.Props.C11", "Shentu.Props.C11H", "Shentu.Props.ShieldTie"]),
